@@ -321,6 +321,63 @@ def unit_words(unit):
     return agg
 
 
+def unit_long_words(unit):
+    """'never on ... length': a long run of one symbol with ONE element of another symbol at the front, in the middle, at the end
+    (run lengths around powers of two: an inference that looks at a prefix or at a sample of a long input would miss it)"""
+    from serif import Vector, Table, read_csv
+    from serif.typing import infer_dtype
+    _, a = unit
+    agg = Agg()
+    for b in SYMS:
+        for k in (31, 32, 33, 63, 64, 65, 127, 128, 129, 1000):
+            for place in ("front", "middle", "end", "none"):
+                if place == "front":
+                    w = (b,) + (a,) * k
+                elif place == "middle":
+                    w = (a,) * (k // 2) + (b,) + (a,) * (k - k // 2)
+                elif place == "end":
+                    w = (a,) * k + (b,)
+                else:
+                    w = (a,) * k
+                sp = spec_of_word(w)
+                vals = word_values(w, 0)
+                agg.states += 1; agg.evals += 1; agg.transitions += 2; agg.compared += 2
+                if a != b and place != "none":
+                    agg.nontrivial += 1
+                case = {"run_of": a, "run_length": k, "odd_one": b if place != "none" else None, "place": place}
+                got = safe_infer(vals)
+                if not agrees(sp, got):
+                    agg.violation(V("infer_dtype.long", symptom(sp, got, (a, b)), case, fmt(sp), fmt(got)))
+                    continue
+                try:
+                    s = Vector(vals).schema()
+                    t = Table({"c": list(vals), "d": list(range(len(vals)))}).cols(0).schema()
+                except Exception as e:
+                    agg.violation(V("Vector.schema.long", "constructor-raises-" + type(e).__name__, case))
+                    continue
+                if s is None or not agrees(sp, dt_pair(s)) or t is None or not agrees(sp, dt_pair(t)):
+                    agg.violation(V("Vector.schema.long", symptom(sp, dt_pair(s), (a, b)) if s is not None else "no-schema", case, fmt(sp), fmt(dt_pair(s)) if s is not None else None))
+                else:
+                    agg.outcomes["long-agree"] += 1
+    # CSV columns: a long run of one cell text and one deviating cell
+    if a in ("int", "float", "str", "None"):
+        texts = {"int": "7", "float": "2.5", "str": "x", "None": ""}
+        for b in texts:
+            for k in (31, 32, 33, 64, 65, 129):
+                for place in ("front", "middle", "end"):
+                    cells = [texts[a]] * k
+                    cells.insert({"front": 0, "middle": k // 2, "end": k}[place], texts[b])
+                    text = "h,g\n" + "".join(f"{c},1\n" for c in cells)
+                    agg.evals += 1; agg.transitions += 1; agg.states += 1
+                    try:
+                        res = read_csv(io.StringIO(text))
+                    except Exception as e:
+                        agg.violation(V("read_csv.long", "raises-" + type(e).__name__, {"run_of": a, "run_length": k, "odd_one": b, "place": place}))
+                        continue
+                    check_col(agg, "read_csv.long", res._underlying[0], {"part": "csv-long", "run_of": texts[a], "run_length": k, "odd_one": texts[b], "place": place})
+    return agg
+
+
 # --------------------------------------------------------------------------------------
 # Part T: result columns typed by the same rule
 # --------------------------------------------------------------------------------------
@@ -500,6 +557,7 @@ def check(ctx):
     parts = core.pmap(unit_words, units)
     tunits = [("arith", o) for o in OPS] + [("join",), ("agg",), ("csv",)]
     parts += core.pmap(unit_typed, tunits)
+    parts += core.pmap(unit_long_words, [("long", a) for a in SYMS])
     for p in parts:
         agg.merge(p)
     agg.notes["bound"] = f"automaton: all DataType states x {len(SYMS)} symbols x {len(SYMS)} symbols; words: every word of length <= {maxlen} x 2 representatives"
